@@ -1008,6 +1008,9 @@ class Simulation(Structure):
             Might set it to zero in cases with many particles and many removals to speed things up.
         """
         if index is not None:
+            if not -2**31 <= index < 2**31:
+                # ctypes keeps the low 32 bits of an int argument: index 2**32 would silently remove particle 0.
+                raise RuntimeError("Index %d passed to remove was out of range (N=%d).  Did not remove particle." % (index, self.N))
             clibrebound.reb_simulation_remove_particle(byref(self), index, keep_sorted)
         if hash is not None:
             hash_types = c_uint32, c_uint, c_uint64
